@@ -31,6 +31,7 @@ type C18Op struct {
 	Name    int    `json:"name"` // index into the case's name list
 	Payload int    `json:"payload,omitempty"`
 	N       int    `json:"n,omitempty"` // concurrency for cstore
+	E       int    `json:"e,omitempty"` // which error a failing PutObject returns (index into putErrKinds)
 }
 
 type C18Case struct {
@@ -50,7 +51,8 @@ type fakeS3 struct {
 	mu                   sync.Mutex
 	objects              map[string][]byte // bucket + "\x00" + key
 	failPut              bool
-	failPutOnceAfterBody bool // the next PutObject reads the body, then fails (e.g. a lost response); later puts work
+	failPutOnceAfterBody bool  // the next PutObject reads the body, then fails (e.g. a lost response); later puts work
+	putErr               error // what failing puts return (default errFakePut)
 	failGet              bool
 	failBody             bool
 	shortBody            bool // the body ends early with io.ErrUnexpectedEOF although ContentLength announced everything
@@ -64,6 +66,16 @@ type fakeS3 struct {
 
 var errFakePut = errors.New("fake s3: injected PutObject failure")
 var errFakeGet = errors.New("fake s3: injected GetObject failure")
+
+// putErrKinds are the errors a failing PutObject returns (C18Op.E): a plain error, and the request failures a real
+// S3 endpoint sends for throttling, time-outs and internal errors.
+var putErrKinds = []error{
+	errFakePut,
+	awserr.NewRequestFailure(awserr.New("SlowDown", "Please reduce your request rate.", nil), 503, "REQ1"),
+	awserr.NewRequestFailure(awserr.New("RequestTimeout", "Your socket connection to the server was not read from or written to within the timeout period.", nil), 400, "REQ2"),
+	awserr.NewRequestFailure(awserr.New("InternalError", "We encountered an internal error. Please try again.", nil), 500, "REQ3"),
+	awserr.New("RequestError", "send request failed", errors.New("read: connection reset by peer")),
+}
 var errFakeBody = errors.New("fake s3: injected body read failure")
 
 // shortReader delivers its data and then fails like a connection that dropped mid-body.
@@ -150,14 +162,18 @@ func (f *fakeS3) PutObjectWithContext(ctx aws.Context, in *s3.PutObjectInput, op
 	f.failPutOnceAfterBody = false
 	f.puts++
 	f.mu.Unlock()
+	perr := f.putErr
+	if perr == nil {
+		perr = errFakePut
+	}
 	if failing {
-		return nil, errFakePut
+		return nil, perr
 	}
 	if once {
 		if in.Body != nil {
 			io.ReadAll(in.Body)
 		}
-		return nil, errFakePut
+		return nil, perr
 	}
 	if in.Bucket == nil || in.Key == nil || in.Body == nil {
 		return nil, errors.New("fake s3: nil bucket, key or body")
@@ -193,6 +209,23 @@ func genC18(t *rapid.T, tier string) C18Case {
 		if b[0] == '-' { // a leading dash is fine for S3 and files alike, keep it; but avoid the special names . and ..
 		}
 		s := string(b)
+		if len(c.Names) > 0 && rapid.IntRange(0, 3).Draw(t, "sibling") == 0 {
+			// a name that differs from an earlier one only in its last character (neighbouring letters of the alphabet
+			// share their high bits), or only in the case of one letter
+			prev := []byte(c.Names[rapid.IntRange(0, len(c.Names)-1).Draw(t, "siblingof")])
+			i := len(prev) - 1
+			if rapid.Bool().Draw(t, "siblingcase") {
+				i = rapid.IntRange(0, len(prev)-1).Draw(t, "siblingpos")
+			}
+			at := 0
+			for j := range nameAlphabet {
+				if nameAlphabet[j] == prev[i] {
+					at = j
+				}
+			}
+			prev[i] = nameAlphabet[at^1]
+			s = string(prev)
+		}
 		if seen[s] {
 			continue
 		}
@@ -242,6 +275,7 @@ func genC18(t *rapid.T, tier string) C18Case {
 			Name:    rapid.IntRange(0, nn-1).Draw(t, "name"),
 			Payload: rapid.IntRange(0, np-1).Draw(t, "payload"),
 			N:       rapid.IntRange(2, 6).Draw(t, "n"),
+			E:       rapid.SampledFrom([]int{0, 0, 1, 2, 3, 4}).Draw(t, "e"),
 		})
 	}
 	return c
@@ -472,23 +506,24 @@ func runC18(c C18Case, o *run.Obs) error {
 			}
 			o.Label("load-overlapping-a-write")
 		case "putfail":
+			injected := putErrKinds[op.E%len(putErrKinds)]
 			fake.mu.Lock()
-			fake.failPut = true
+			fake.failPut, fake.putErr = true, injected
 			fake.mu.Unlock()
 			err := p.Store(ctx, name, payload)
 			fake.mu.Lock()
-			fake.failPut = false
+			fake.failPut, fake.putErr = false, nil
 			fake.mu.Unlock()
-			if !errors.Is(err, errFakePut) {
-				return fmt.Errorf("%s %s: the S3 client failed PutObject but Store returned %v", desc, when, err)
+			if err == nil {
+				return fmt.Errorf("%s %s: every PutObject failed (%v) but Store returned nil", desc, when, injected)
 			}
 		case "putfailonce":
 			fake.mu.Lock()
-			fake.failPutOnceAfterBody = true
+			fake.failPutOnceAfterBody, fake.putErr = true, putErrKinds[op.E%len(putErrKinds)]
 			fake.mu.Unlock()
 			err := p.Store(ctx, name, payload)
 			fake.mu.Lock()
-			fake.failPutOnceAfterBody = false
+			fake.failPutOnceAfterBody, fake.putErr = false, nil
 			fake.mu.Unlock()
 			if err == nil {
 				// the backend error was absorbed (e.g. by a retry): then the write must really have happened
@@ -496,8 +531,6 @@ func runC18(c C18Case, o *run.Obs) error {
 				if err := load(when+" (Store reported success although a PutObject failed after its body was read)", name); err != nil {
 					return err
 				}
-			} else if !errors.Is(err, errFakePut) {
-				return fmt.Errorf("%s %s: the S3 client failed PutObject but Store returned %v", desc, when, err)
 			} else if _, known := model[name]; !known {
 				// nothing may be visible under the name unless it is complete
 				fake.mu.Lock()
